@@ -375,6 +375,9 @@ static void build_stories(void)
         STP(s, P_H1FD, P_MIP_R1, P_MIP_R15, P_H102, P_R1_TEXT, P_X28_1, P_H103, P_R1_TEXT, P_X28_4, P_H100E, P_R1_TEXT, P_X26_0L, P_H101, P_R1_ATTR, P_X28_0, P_H1FD, P_MIP_R1, P_MIP_R15, P_H1FF);      /* the MIP twice: the first classifies the pages (stored as level one pages), the second finds them cached */
         s = story_new("TOP: two AIT pages with interleaving titles", 1, X_TOPINDEX | X_LOP);
         STP(s, P_H1F0, P_BTT_R1, P_BTT_R21B, P_H17C, P_AIT_R1C, P_H16A, P_AIT_R1D, P_H100E, P_R1_TEXT, P_H1FF);
+        /* the BTT arrives every few seconds: a listed subtitle page that is cached is looked up each time */
+        s = story_new("TOP: BTT lists a cached page as subtitle page, BTT repeated", 1, X_LOP);
+        STP(s, P_H101, P_R1_ATTR, P_H1F0, P_BTT_R1S, P_H1FF, P_H1F0, P_BTT_R1S, P_H1FF, P_H101, P_R1_ATTR, P_H1F0, P_BTT_R1S, P_H1FF);
         s = story_new("damaged headers", 0, 0);
         STP(s, P_H100E, P_R1_TEXT, P_HBADPAGE, P_R1_TEXT, P_H100E, P_HBADSUB, P_R1_TEXT, P_HBADFLAGS, P_R1_TEXT, P_H1FF);
 }
